@@ -22,7 +22,7 @@ CHECK = dict(
     exhaustive={"quick": False, "thorough": False},
     technique="runtime monitoring: decode -> assemble -> decode round trip on decoder-accepted byte strings",
 )
-PER_ARCH = {"quick": 800, "thorough": 2500}      # seed-dependent candidates per arch/mode
+PER_ARCH = {"quick": 400, "thorough": 1600}      # seed-dependent candidates per arch/mode
 WALK = {"quick": (1, 1), "thorough": (2, 1)}      # table walk: (rounds, stride)
 
 
